@@ -1234,6 +1234,28 @@ func c09ManyIterations(c *C) {
 		}
 		want.WriteString(cache[rows[k]])
 	}
+	// the same body in a loop over the KEYS of a map (only the key is named), sorted
+	{
+		mtpl, merr := set.FromString(strings.Replace(main, "{% for i in rows %}", "{% for i in keyed sorted %}", 1))
+		if merr != nil {
+			c.Fail("reference-mismatch", D{"body": b.name, "main": main, "compile_err": merr.Error()})
+			return
+		}
+		mout, mxerr := mtpl.Execute(pongo2.Context{"keyed": map[int]string{3: "c", 0: "z", 5: "f", 1: "a"}, "rn": "/row.tpl", "two": []int{1, 2}})
+		mwant := ""
+		for _, k := range []int{0, 1, 3, 5} {
+			if _, ok := cache[k]; !ok {
+				cache[k], _ = render([]int{k}, 0)
+			}
+			mwant += cache[k]
+		}
+		c.Eval(1)
+		if mxerr != nil || mout != mwant {
+			c.Fail("reference-mismatch", D{"body": b.name, "loop": "{% for i in keyed sorted %} over map[int]string{3,0,5,1}", "main": main, "output": q(mout), "expected": q(mwant), "error": errStr(mxerr),
+				"why": "a loop over the keys of a map renders its body once per key, like the loop over the list of those keys"})
+			return
+		}
+	}
 	for run := 0; run < 2; run++ {
 		out, xerr := render(rows, uint64(c.Idx+run))
 		c.Eval(1)
